@@ -243,22 +243,43 @@ def rule_st5(ctx: Ctx) -> RuleResult:
             continue
         r.groups.add((spec.qualname, cfg_str(cfg)))
         reset = {name: set() for name in written}
-        by_kind = {kind: {name: set() for name in written} for kind in ("Completed", "Create", "Error")}
+        by_kind = {kind: {name: [] for name in written} for kind in ("Completed", "Create", "Error")}
+        counts = {w[1] for ws in written.values() for w in ws if w[0] in ("range", "one")}
+        # the loops that clear slots (by the statement they are): such a loop walks the n slots of the key, and running it zero times is not a
+        # path of the program (there is at least one branch)
+        reset_loops = set()
+        for kind in ("Completed", "Create", "Error"):
+            for p in ctx.paths(spec, kind, cfg):
+                cur = None
+                for e in p.trace:
+                    if e.k == "loopiter":
+                        cur = id(e.node)
+                    elif e.k == "loopexit":
+                        cur = None
+                    elif cur is not None and e.k == "substore" and root_of(e.base)[0] == "free" and root_of(e.base)[1] in written and _clearing(e.value):
+                        reset_loops.add(cur)
         for kind in ("Completed", "Create", "Error"):
             for p in ctx.paths(spec, kind, cfg):
                 r.paths += 1
                 fw = [m for m in mux_emissions(p) if m.event is not None and m.event.kind == kind]
                 if not fw:
                     continue
+                if any(e.k == "loopexit" and e.n == 0 and (id(e.node) in reset_loops or (
+                        e.iter is not None and e.iter[0] == "call" and e.iter[1] == ("builtin", "range") and len(e.iter[2]) == 1 and e.iter[2][0] in counts))
+                       for e in p.trace):
+                    continue
                 li = _loop_iters(p)
+                here = {name: set() for name in written}
                 for e in p.trace:
                     if e.k == "substore" and root_of(e.base)[0] == "free" and _clearing(e.value):
                         name = root_of(e.base)[1]
                         if name in reset:
                             d = _slot_set(e.index, branch, li, p, guard_only=True)
-                            by_kind[kind][name].add(d)
+                            here[name].add(d)
                             if kind != "Error":
                                 reset[name].add(d)
+                for name in written:
+                    by_kind[kind][name].append(here[name])      # what THIS forwarding path resets
         # every store into a join table addresses the slots of the key being handled (key[0]*n + ...): a store at an index that is not built on
         # the key's base lands in the slots of another key, whatever it was meant to reset
         tables = set(written)
@@ -280,11 +301,12 @@ def rule_st5(ctx: Ctx) -> RuleResult:
             for w in wsets:
                 if w[0] == "unknown" or not any(_covers(x, w) for x in reset[name]):
                     continue        # reported below
-                at = {kind: any(_covers(x, w) for x in by_kind[kind][name]) for kind in by_kind}
+                # ... on every path of the kind that sends the event on (a reset under a condition -- only when the tables grow -- is no reset)
+                at = {kind: bool(by_kind[kind][name]) and all(any(_covers(x, w) for x in here) for here in by_kind[kind][name]) for kind in by_kind}
                 r.ob(at["Create"] or (at["Completed"] and at["Error"]), lambda n=name, w=w, at=at: Finding(
                     "ST-5", "%s{%s,error-end}" % (spec.qualname, n), sample_node[n].where(),
-                    "join table '%s': the slots %s of a key are reset when the key completes, but neither when it is created nor when its lifetime "
-                    "ends with an error (a window of roll closed by a mux error): the values the branches left behind are joined with the items of "
+                    "join table '%s': the slots %s of a key are reset when the key completes, but not -- on every path that sends the event on -- when it "
+                    "is created, nor when its lifetime ends with an error (a window of roll closed by a mux error): the values the branches left behind are joined with the items of "
                     "the next lifetime served by the same key index (config %s)" % (n, _set_str(w), cfg_str(cfg)),
                     ["written in Next: %s[%s]" % (n, show(sample_node[n].index))]))
         for name, wsets in written.items():
